@@ -529,6 +529,43 @@ pub(crate) fn break_recursive_bounds(
         })
     }
 
+    /// Checks whether a value of the provided type holds (and so formats) values of the deriving
+    /// type: the type itself (by its bare name or as `Self`) as the type, as a generic argument, or
+    /// inside a reference, array, slice or tuple. Not behind a raw pointer or a function pointer,
+    /// in a `PhantomData`, a trait object or a projection, and not a type that only shares the name
+    /// (`other::Name<T>`, `I::Name`).
+    fn holds(ty: &syn::Type, ident: &syn::Ident) -> bool {
+        match ty {
+            syn::Type::Path(syn::TypePath { qself: None, path }) => {
+                if path.segments.len() == 1
+                    && (path.segments[0].ident == *ident || path.segments[0].ident == "Self")
+                {
+                    return true;
+                }
+                let last = path.segments.last().unwrap();
+                last.ident != "PhantomData"
+                    && match &last.arguments {
+                        syn::PathArguments::AngleBracketed(args) => {
+                            args.args.iter().any(|arg| match arg {
+                                syn::GenericArgument::Type(ty) => holds(ty, ident),
+                                _ => false,
+                            })
+                        }
+                        _ => false,
+                    }
+            }
+            syn::Type::Array(syn::TypeArray { elem, .. })
+            | syn::Type::Group(syn::TypeGroup { elem, .. })
+            | syn::Type::Paren(syn::TypeParen { elem, .. })
+            | syn::Type::Reference(syn::TypeReference { elem, .. })
+            | syn::Type::Slice(syn::TypeSlice { elem, .. }) => holds(elem, ident),
+            syn::Type::Tuple(syn::TypeTuple { elems, .. }) => {
+                elems.iter().any(|ty| holds(ty, ident))
+            }
+            _ => false,
+        }
+    }
+
     let inferred: syn::TypeParamBound =
         parse_quote! { derive_more::core::fmt::#trait_ident };
 
@@ -540,11 +577,15 @@ pub(crate) fn break_recursive_bounds(
                 if p.lifetimes.is_none()
                     && p.bounds.len() == 1
                     && p.bounds[0] == inferred
-                    && mentions(p.bounded_ty.to_token_stream(), ident) =>
+                    && holds(&p.bounded_ty, ident) =>
             {
+                let self_ident = format_ident!("Self");
                 type_params
                     .iter()
-                    .filter(|param| mentions(p.bounded_ty.to_token_stream(), param))
+                    .filter(|param| {
+                        mentions(p.bounded_ty.to_token_stream(), param)
+                            || mentions(p.bounded_ty.to_token_stream(), &self_ident)
+                    })
                     .map(|param| parse_quote! { #param: #inferred })
                     .collect()
             }
